@@ -92,13 +92,16 @@ _dispatch_semaphore_signal_slow(dispatch_semaphore_t dsema)
 intptr_t
 dispatch_semaphore_signal(dispatch_semaphore_t dsema)
 {
-	long value = os_atomic_inc2o(dsema, dsema_value, release);
-	if (likely(value > 0)) {
-		return 0;
-	}
-	if (unlikely(value == LONG_MIN)) {
-		DISPATCH_CLIENT_CRASH(value,
+	// The overflow test has to be made on the value before the increment:
+	// "orig + 1 == LONG_MIN" is undefined behaviour for a signed long and the
+	// compiler drops a test that relies on it
+	long orig = os_atomic_inc_orig2o(dsema, dsema_value, release);
+	if (unlikely(orig == LONG_MAX)) {
+		DISPATCH_CLIENT_CRASH(orig,
 				"Unbalanced call to dispatch_semaphore_signal()");
+	}
+	if (likely(orig >= 0)) {
+		return 0;
 	}
 	return _dispatch_semaphore_signal_slow(dsema);
 }
